@@ -1,6 +1,8 @@
 #!/bin/bash
 # lib/run_seed.sh <seed-name> <property> [tier]  - runs ./check <property> against /repo + seeded/<name>/patch.diff
 # in a scratch worktree (VERIF_REPO override, so /repo itself is not touched while other work uses it).
+# VERIF_ROOT=<dir> runs the check from a synchronised copy of /verif (see lib/seed_batch.sh) so that seed runs do not
+# share the harness build directory with work going on in /verif.
 # Prints the check's verdict lines; exit code = the check's exit code (1 expected = detected).
 set -u
 NAME=$1; PROP=$2; TIER=${3:-quick}
@@ -9,7 +11,7 @@ rm -rf $WT; git -C /repo worktree prune
 git -C /repo worktree add -q --detach $WT HEAD || exit 2
 git -C $WT apply /verif/seeded/$NAME/patch.diff || { echo "patch does not apply"; exit 2; }
 cp /repo/Cargo.lock $WT/Cargo.lock
-cd /verif && VERIF_REPO=$WT ./check $PROP --tier $TIER 2>&1 | tail -4; RC=${PIPESTATUS[0]}
+cd ${VERIF_ROOT:-/verif} && VERIF_REPO=$WT ./check $PROP --tier $TIER 2>&1 | tail -4; RC=${PIPESTATUS[0]}
 git -C /repo worktree remove --force $WT
 echo "run_seed $NAME $PROP: rc=$RC"
 exit $RC
